@@ -137,9 +137,9 @@ spec fn crc_of<'a>(o: Option<&'a ChildParentData>) -> Option<ChildRenderContext<
         final(fields).pitems() == sib_rest(old(fields).pitems(), named_fields, cview(*ctx),
             Some((*field_ctx.0, crc_of(find_child_data(&dt_attrs(*ctx.input), ctx.struct_attr.ty, cps(field_ctx.0, Some(field_ctx.1)))), field_ctx.1))), // #consumes-its-own-members
 //@closure 0
-    |x: &ChildParentsAttr| -> (r: Option<&ChildParentData>) ensures r == first(refs(x.child_parents.pseq()), q_cpd(path@))
+    |x: &ChildParentsAttr| -> (r: Option<&ChildParentData>) ensures r == first(refs(x.child_parents.pseq()), q_cpd(cps(field_ctx.0, Some(field_ctx.1))))
 //@closure 1
-    |child_data: &&ChildParentData| -> (r: bool) ensures r == q_cpd(path@)(*child_data)
+    |child_data: &&ChildParentData| -> (r: bool) ensures r == q_cpd(cps(field_ctx.0, Some(field_ctx.1)))(*child_data)
 //@closure 2
     |x: &ChildParentData| -> (r: ChildRenderContext) ensures *r.ty == cpd_ty(*x) && r.type_hint == cpd_hint(*x)
 //@end
@@ -151,7 +151,7 @@ spec fn crc_of<'a>(o: Option<&'a ChildParentData>) -> Option<ChildRenderContext<
 spec fn opens_child(cp: &ChildPath, depth: Option<usize>) -> bool {
     depth is None || depth->0 < cp.child_path_str@.len() - 1
 }
-spec fn next_depth(depth: Option<usize>) -> usize { match depth { None => 0, Some(d) => (d + 1) as usize } }
+spec fn spec_next_depth(depth: Option<usize>) -> usize { match depth { None => 0, Some(d) => (d + 1) as usize } }
 
 //@fn expand.rs render_child_fragment
 //@props C03,C16,C17
@@ -164,11 +164,11 @@ spec fn next_depth(depth: Option<usize>) -> usize { match depth { None => 0, Som
         !(type_hint is Unit) || !k_is_into(ctx.kind) || !opens_child(child_path, depth), // #nested-struct-has-a-form [C16]
         // check_child_errors: every prefix of a child path has a #[child_parents] entry when converting into the counterpart
         (k_is_into(ctx.kind) && opens_child(child_path, depth)) ==>
-            find_child_data(&dt_attrs(*ctx.input), ctx.struct_attr.ty, cps(child_path, Some(next_depth(depth)))) is Some, // #child_parents-entry-exists [C16]
+            find_child_data(&dt_attrs(*ctx.input), ctx.struct_attr.ty, cps(child_path, Some(spec_next_depth(depth)))) is Some, // #child_parents-entry-exists [C16]
     ensures
         // deeper levels remain: open the nested struct named by the next path segment
         (opens_child(child_path, depth) && k_is_into(ctx.kind) && !ctx.has_post_init) ==> ({
-            let nd = next_depth(depth);
+            let nd = spec_next_depth(depth);
             let cd = find_child_data(&dt_attrs(*ctx.input), ctx.struct_attr.ty, cps(child_path, Some(nd)))->0;
             let fc = Some((*child_path, Some(ChildRenderContext { ty: &cpd_ty(*cd), type_hint: cpd_hint(*cd) }), nd));
             &&& r@ =~= (if child_named((*ctx.input)->Struct_0.named_fields, type_hint) { child_path.child_path.pseq()[nd as int].toks() + p(":") } else { nil() })
@@ -177,7 +177,7 @@ spec fn next_depth(depth: Option<usize>) -> usize { match depth { None => 0, Som
         }), // #into-opens-the-next-nested-struct
         // into_existing, and a body that pours a bare #[parent] into `obj`: nothing is constructed, the members assign through the path [C17]
         (opens_child(child_path, depth) && (k_is_into_existing(ctx.kind) || (k_is_into(ctx.kind) && ctx.has_post_init))) ==> ({
-            let nd = next_depth(depth);
+            let nd = spec_next_depth(depth);
             let fc = Some((*child_path, crc_of(find_child_data(&dt_attrs(*ctx.input), ctx.struct_attr.ty, cps(child_path, Some(nd)))), nd));
             &&& r@ == sib_toks(old(fields).pitems(), (*ctx.input)->Struct_0.named_fields, cview(*ctx), fc)
             &&& final(fields).pitems() == sib_rest(old(fields).pitems(), (*ctx.input)->Struct_0.named_fields, cview(*ctx), fc)
@@ -188,7 +188,7 @@ spec fn next_depth(depth: Option<usize>) -> usize { match depth { None => 0, Som
 //@closure 0
     |x: usize| -> (r: usize) requires x < usize::MAX ensures r == x + 1
 //@closure 1
-    |child_data: &&ChildParentData| -> (r: bool) ensures r == q_cpd(cps(child_path, Some(new_depth)))(*child_data)
+    |child_data: &&ChildParentData| -> (r: bool) ensures r == q_cpd(cps(child_path, Some(spec_next_depth(depth))))(*child_data)
 //@end
 
 
@@ -226,7 +226,7 @@ spec fn sub_member<'a>() -> spec_fn(&'a (Member, Option<Path>)) -> Member { |x: 
     ensures
         ((depth is None || depth->0 < parent_child_field.sub_path@.len()) && k_is_from(ctx.kind)) ==> ({
             let cp = spec_child_path_new(field.member, refs(parent_child_field.sub_path@).map_values(sub_member()));
-            let nd = next_depth(depth);
+            let nd = spec_next_depth(depth);
             let ty = if depth is Some { parent_child_field.sub_path@[depth->0 as int].1->0 } else { field.ty->0 };
             let hint = if (*ctx.input)->Struct_0.named_fields { TypeHint::Struct } else { TypeHint::Tuple };
             let fc = Some((cp, Some(ChildRenderContext { ty: &ty, type_hint: ctx.struct_attr.type_hint }), nd));
